@@ -115,6 +115,8 @@ func (ft *FieldNameMap) Build() {
 
 	// calculate the best position which has the highest dispersion
 	var idealPos = -1
+	var bestPos = -1
+	var best = float64(len(ft.all) + 1)
 	var min = defaultMaxBucketSize
 	var count = len(ft.all)
 
@@ -123,6 +125,10 @@ func (ft *FieldNameMap) Build() {
 		l := len(cd)
 		// calculate the dispersion (average bucket size)
 		f := float64(count) / float64(l)
+		if f < best {
+			best = f
+			bestPos = i
+		}
 		if f < min {
 			min = f
 			idealPos = i
@@ -130,6 +136,17 @@ func (ft *FieldNameMap) Build() {
 		// 1 means all the value store in different bucket, no need to continue calulating
 		if min == 1 {
 			break
+		}
+	}
+
+	if idealPos == -1 && bestPos != -1 {
+		// caching.HashMap cannot hold a key whose DJB hash is 0 (hash 0 marks an empty slot), and its native twin
+		// (native/map.c hash_DJB32) sign-extends bytes >= 0x80; the trie is exact for every key, so use it for such key sets
+		for _, v := range ft.all {
+			if !hashMapSafe(v.Key) {
+				idealPos = bestPos
+				break
+			}
 		}
 	}
 
@@ -164,6 +181,15 @@ func (ft *FieldNameMap) Build() {
 			ft.hash.Set("", empty)
 		}
 	}
+}
+
+func hashMapSafe(key string) bool {
+	for i := 0; i < len(key); i++ {
+		if key[i] >= 0x80 {
+			return false
+		}
+	}
+	return caching.DJBHash32(key) != 0
 }
 
 // FieldIDMap is a map from field id to field descriptor
